@@ -50,6 +50,12 @@ EXPLICIT = [
     ["D", [[["s", "k"], ["L", [["s", "a"]]]]]], ["D", [[["s", "k"], ["L", [["y", "61"]]]]]], ["D", [[["s", "k"], ["T", [["s", "a"]]]]]],
     ["S", [["i", "1"], ["s", "a"], ["n"], ["y", "61"]]], ["F", [["i", "1"], ["s", "a"], ["n"], ["y", "61"]]],
     ["S", [["T", [["i", "1"], ["s", "a"]]], ["T", [["i", "1"], ["i", "2"]]], ["s", "x"]]],
+    # the same large payload twice in one value (shared vs distinct equal objects must hash alike)
+    ["L", [["Z", "bytes", 1 << 20, 7], ["Z", "bytes", 1 << 20, 7]]],
+    ["T", [["Z", "zeros", (1 << 20) + 17, 0], ["i", "1"], ["Z", "zeros", (1 << 20) + 17, 0]]],
+    ["D", [[["s", "a"], ["Z", "bytes", 3 << 20, 9]], [["s", "b"], ["Z", "bytes", 3 << 20, 9]]]],
+    ["L", [["Z", "str", 70000, 3], ["L", [["Z", "str", 70000, 3]]]]],
+    ["L", [["Z", "bytes", 65536, 5], ["Z", "bytes", 65536, 5], ["Z", "bytes", 65537, 5]]],
 ]
 
 
@@ -179,7 +185,7 @@ def run_case(case, ctx):
             if any(r["md5"] != r["md5_shared_strings"] for r in rows):
                 bad = ("string-identity", "md5")
                 rows = [dict(r, md5_b=r["md5_shared_strings"]) for r in rows]
-            if json.dumps(spec).count('"s"') + json.dumps(spec).count('"y"') >= 2:
+            if json.dumps(spec).count('"s"') + json.dumps(spec).count('"y"') + json.dumps(spec).count('"Z"') >= 2:
                 ctx.count("values_with_repeatable_strings")
             if bad:
                 ctx.violation(classify(spec, bad[0]),
